@@ -102,6 +102,7 @@ class Kind:
         self.build = build
         self.read = read
         self.parse = parse
+        self.alt_builds = []  # other documented argument types for the same field values: must serialise to the same bits
         self.length = sum(seg[1] if seg[0] != "f" else seg[2] for seg in layout)
         self.widths = {}
         for seg in layout:
@@ -628,7 +629,23 @@ def udp_kinds():
 
             a = {"said": sorted(IPID_DEFINED), "daid": sorted(IPID_DEFINED),
                  "spid": list(range(1, 128)), "dpid": list(range(1, 128))}
-            ks.append(Kind("udp_ipv4", f"udp_{variant}_ud{udw}", layout, build, read, UDPIPv4CompressedHeader.from_bits, a))
+            k_ = Kind("udp_ipv4", f"udp_{variant}_ud{udw}", layout, build, read, UDPIPv4CompressedHeader.from_bits, a)
+
+            def build_members(v, spid0=spid0, dpid0=dpid0, udw=udw):
+                """port / address identifiers given as enumeration members (documented Union[member, int] arguments); only for
+                values that are members themselves (0, 1, 2), other values can only be given as ints"""
+                sp = 0 if spid0 else v["spid"]
+                dp = 0 if dpid0 else v["dpid"]
+                if sp not in (0, 1, 2) or dp not in (0, 1, 2):
+                    return None
+                return UDPIPv4CompressedHeader(
+                    ipv4_identification=v["ipv4_identification"], source_ip_address_id=v["said"], destination_ip_address_id=v["daid"],
+                    udp_source_port_id=UDPPortIdentifier(sp), udp_destination_port_id=UDPPortIdentifier(dp),
+                    user_data=ba(bits_of(v.get("user_data", 0), udw)), extended_header_1=v.get("extended_header_1"),
+                    extended_header_2=v.get("extended_header_2"))
+
+            k_.alt_builds.append(("identifiers_as_members", build_members))
+            ks.append(k_)
     return ks
 
 
@@ -728,6 +745,23 @@ def roundtrip_case(kind, vals, acc, detail=None):
                       "serialisation does not have the kind's fixed length")
         return "length"
     got = bits.to01()
+    for alt_name, alt in kind.alt_builds + [("flags_as_bool", None)]:
+        try:
+            if alt is None:
+                if not any(kind.widths.get(k) == 1 for k in vals):
+                    continue
+                alt_obj = kind.build({k: (bool(x) if kind.widths.get(k) == 1 else x) for k, x in vals.items()})
+            else:
+                alt_obj = alt(vals)
+            if alt_obj is None:
+                continue
+            alt_bits = alt_obj.as_bits().to01()
+        except Exception:  # noqa: BLE001  (an argument form the constructor does not take is not this check's business)
+            continue
+        masked = lambda b: "".join(c for c, m in zip(b, kind.crc_mask) if not m)  # noqa: E731
+        if len(alt_bits) != len(got) or masked(alt_bits) != masked(got):
+            acc.violation(f"{kind.name}:other_argument_type_serialises_differently:{alt_name}", {**case, "bits": got, "alt_bits": alt_bits},
+                          "the same field values given in another documented argument type serialise to other bits")
     want = kind.expected_bits(vals)
     bad_fields = []
     for i, (g, w) in enumerate(zip(got, want)):
